@@ -295,6 +295,32 @@ func c07(r *Report, s *Sem) {
 					if cs, isC := constString(stripConv(st.Val)); isC && strings.TrimSpace(cs) != "" {
 						ok = true
 					}
+					// a description chosen among constants by a validation helper: every candidate is a constant, and an
+					// empty one cannot reach the failing call (it sits on the edge description != "")
+					if _, isC := stripConv(st.Val).(*ssa.Const); !isC {
+						all, n := true, 0
+						guardedNonEmpty := condGuard(c.Block(), func(cd Cond) bool {
+							if cd.Op != token.NEQ {
+								return false
+							}
+							x, y := cd.X, cd.Y
+							if cs, isC := constString(stripConv(x)); isC && cs == "" {
+								x, y = y, x
+							}
+							cs, isC := constString(stripConv(y))
+							return isC && cs == "" && stripConv(x) == stripConv(st.Val)
+						})
+						for _, dl := range leaves(st.Val) {
+							cs, isC := constString(stripConv(dl))
+							if !isC || (strings.TrimSpace(cs) == "" && !guardedNonEmpty) {
+								all = false
+							}
+							n++
+						}
+						if all && n > 0 {
+							ok = true
+						}
+					}
 				}
 			}
 		}
